@@ -20,6 +20,7 @@ def state_of(snap):
 
 def materialise(root, base_files, patches, lines, snap):
     files = {p: (v[1], v[2]) for p, v in snap.items() if v[0] == 'F'}
+    files.update({p: (v[1].encode(), 'link') for p, v in snap.items() if v[0] == 'L'})
     ws.make_ws(root, files, patches, lines)
     for p, v in snap.items():
         if v[0] == 'D':
@@ -28,14 +29,15 @@ def materialise(root, base_files, patches, lines, snap):
 
 def graph(task):
     m0, series = task
-    n = len(series)
-    names = tq.names_for(series)
+    raw = isinstance(series, tq.Raw)
+    names = series.names if raw else tq.names_for(series)
+    n = len(names)
     files, patches, lines = tq.workspace_of(m0, series, names)
     root = os.path.join(wsweep.wdir(), 'ws')
     tr = os.path.join(wsweep.wdir(), 'trace')
     out = {'evals': 0, 'violations': [], 'outcomes': {}, 'nontrivial': 0}
     tags = wsweep.cls(wsweep.tags_of(series))
-    first_fail = next((i for i, p in enumerate(series) if not p.ok()), None)
+    first_fail = series.first_fail if raw else next((i for i, p in enumerate(series) if not p.ok()), None)
 
     def wit(extra):
         return wsweep.witness(m0, series, {'quiet': True, 'backup': 'never', 'goal': []}, extra, names)
@@ -51,7 +53,8 @@ def graph(task):
         ref[g] = state_of(ws.snapshot(root))
     ws.make_ws(root, files, patches, lines)
     pristine = ws.snapshot(root)
-    invs = [([], None)] + [([str(m)], m) for m in range(n + 1)] + [([nm], ('name', i)) for i, nm in enumerate(names)] + [(['-a'], 'all')]
+    # (a count beyond the number of patches, up to the largest number there is, means "all the remaining ones")
+    invs = [([], None)] + [([str(m)], m) for m in range(n + 1)] + [([nm], ('name', i)) for i, nm in enumerate(names)] + [(['-a'], 'all'), (['18446744073709551615'], 'all'), (['4294967296'], 'all')]
     seen = {(state_of(pristine), 0): (pristine, [])}
     queue = [(state_of(pristine), 0)]
     states, transitions = 1, 0
@@ -135,8 +138,16 @@ def run(tier, seed):
         if s_:
             series.append(s_)
     series += tq.special_series(m0)
+    # -p0 entries whose names are spelled ./name next to entries spelled plainly
+    for s_ in tq.special_series(m0)[:8] + series[:40:5]:
+        for i in range(len(s_)):
+            v = [tq.Patch(p.fps, p.reverse, p.strip, p.empty) for p in s_]
+            v[i] = tq.Patch(s_[i].fps, s_[i].reverse, 'dot', s_[i].empty)
+            series.append(v)
+    import rawcases
+    series += rawcases.for_prop('C09')
     # an unpatchable target (I/O error) is not a patch failure: such pushes are refused as a whole (C17's subject)
-    series = [s for s in series if not any(fp.error for p in s for fp in p.fps)]
+    series = [s for s in series if isinstance(s, tq.Raw) or not any(fp.error for p in s for fp in p.fps)]
     acc = wsweep.Acc(res)
     results = wsweep.pmap(graph, [(m0, s) for s in series])
     states = transitions = 0
